@@ -86,6 +86,12 @@ pub const CATALOGUE: &[Operand] = &[
     Operand { ty: "mut (int|float)", values: &["mut int|float 1", "mut int|float 2.5"] },
     Operand { ty: "(mut any)->()", values: &["(m: mut any) { m = \"s\"; }"] },
     Operand { ty: "([mut (int|float)])->()", values: &["(ms: [mut (int|float)]) { ms[0] = 2.5; }"] },
+    // functions that never return (no value can be listed: a call of one would not come back)
+    Operand { ty: "()->!", values: &[] },
+    Operand { ty: "(int)->!", values: &[] },
+    Operand { ty: "()->!|()->(bool, int)", values: &["[1]~"] },
+    // (no `[()->!]`: the filler of an exhausted iterator over it has no value to be - the family of the
+    // recorded finding C01:void-for-never)
 ];
 
 /// templates over one operand `X`
@@ -124,6 +130,13 @@ pub const UNARY: &[&str] = &[
     "r := if v: [int] = X { v[-1] * 2 } else { 0 }", "r := if v: [string] = X { std.len(v[-1]) } else { 0 }",
     "r := if v: (int, int) = X { v.0 * v.1 } else { 0 }", "r := if v: struct{a: int} = X { v.a * 2 } else { 0 }",
     "r := if v: mut int = X { v += 1 } else { 0 }", "r := match X { v: [int] => v[0] - 1, v: [string] => std.len(v[0]), => 0, }",
+    // a mapped / filtered iterator called by hand past its end: the filler belongs to the declared element type
+    "it := X~ @ (v: any) -> string { return \"s\"; }; it(); it(); it(); it(); r := it().1 + \"!\"",
+    "it := X @ (v: any) -> [int] { return [1]; }; it(); it(); it(); r := it().1 + [2]",
+    "it := X~ @ (v: any) -> float { return 1.5; }; it(); it(); it(); it(); r := it().1 * 2.0",
+    "it := X~ @ (v: any) -> (int, string) { return (1, \"s\"); }; it(); it(); it(); it(); r := it().1.1 + \"!\"",
+    "it := X ? (v: any) -> bool { return true; }; it(); it(); it(); r := it()",
+    "it := X~ ? int; it(); it(); it(); it(); r := it().1 + 1",
     // reducers over the iterator of an array (an empty array may be labelled `[!]`: the declared type decides)
     "r := X~ $+", "r := X~ $*", "r := X[0:0]~ $+", "r := X~ ? (v: any) -> bool { return true; } $+",
 ];
